@@ -183,6 +183,18 @@ PtrRel(op, k1, k2) ==
     [] op = "peq" -> Res(TRUE, "int", ZBool(k1 = k2))
     [] OTHER      -> Res(TRUE, "int", ZBool(k1 # k2))
 
+(* ---- switch (6.8.4.2p5): each case label is converted to the promoted type of the controlling
+   expression; the case is selected iff it equals the (promoted) controlling value.  The type is that of
+   the *enclosing* switch: a nested switch does not change how later labels of the outer one convert. *)
+CaseSelects(tc, x, vl) == Convert(x, Promote(tc)) = Convert(vl, Promote(tc))
+
+(* ---- enumerators (6.7.2.2p3, scope 6.2.1p7): an enumeration constant has type int; its scope begins
+   just after its own enumerator, so `enum { N = N op c }` in an inner scope refers to the OUTER N.
+   EnumDef(op, outer, tc, c): value of N and of the next, implicit enumerator M; both must fit int. *)
+EnumDef(op, outer, tc, c) ==
+  LET r == Bin(op, "int", outer, tc, c) IN
+  [ok |-> r.ok /\ InRange(r.v, "int") /\ InRange(ZAdd(r.v, Z1), "int"), v |-> r.v, next |-> ZAdd(r.v, Z1)]
+
 (* ---- contexts: the implicit conversion each context performs ---------- *)
 (* initializer / argument / return / simple assignment (6.5.16.1p2, 6.5.2.2p7, 6.8.6.4p3):
    the value is converted to the destination type; an assignment expression
